@@ -296,6 +296,12 @@ def orElseCatO (el : Elem α) (mv : Bool) (o : Option α) : Option α × Option 
   | some x => if mv then (some (el.mc x).1, some (el.mc x).2) else (some (el.cc x), some x)
   | none => (none, none)
 
+/-- P2988 [optional.ref.ctor] / converting assignment, `optional<T&>` from `optional<U>`: "if rhs.has_value() is true,
+    initializes val with convert-ref-init-val(*rhs); otherwise *this is empty" - on the address of the object held -/
+def orefConv : Option Nat → Option Nat
+  | some a => some a
+  | none => none
+
 /-! ### expected -/
 
 inductive E (α : Type) where
